@@ -328,6 +328,17 @@ def c10_case(case):
     mid = f.copy()
     adv.step(f, j2, i2)
     ck.close('second step after a first one (rIdx %d->%d, cIdx %d->%d)' % (i, i2, j, j2), f, ref(mid, i2, j2)[0], 1.0 + np.abs(mid).max())
+    # a second operator with another time step built on the same spline bases must not disturb the first one
+    from pygyro.advection.advection import FluxSurfaceAdvection
+    adv2 = FluxSurfaceAdvection(eta, [adv._thetaSpline.basis, adv._thetaSpline.basis], layout, -0.37 * case['dt'],
+                                make_constants(dict(iotaVal=case['iota'], R0=case['R0'])))
+    g2 = f0.copy()
+    adv2.step(g2, j, i)
+    want2 = c10_ref(f0, theta, sp, dz, case['iota'], case['R0'], r_loc[i], v_loc[j], -0.37 * case['dt'])[0]
+    ck.close('second operator (dt -> -0.37 dt) on the same bases', g2, want2, scale)
+    g3 = f1.copy()
+    adv.step(g3, j, i)
+    ck.close('first operator unchanged after using the second one', g3, h1, 1.0 + np.abs(h1).max(), rtol=1e-13)
     return ck
 
 
@@ -849,7 +860,7 @@ def c12_trace_case(case):
                     h = []
                     ref.feet_implicit(Cphi, dt, maxit=3000, hist=h)
                     ck.add('step %d implicit iteration terminates' % k, False,
-                           'no return within %d s (about 1000 sweeps on this grid); dt=%g, |dt|/2*max||grad drift|| = %.2f; in the reference '
+                           'no return within %d s (a converging call on this grid takes well under 1 s); dt=%g, |dt|/2*max||grad drift|| = %.2f; in the reference '
                            'fixed-point iteration the largest change per sweep is %.2e after 1000, %.2e after 2000, %.2e after 3000 sweeps (stopping '
                            'tolerance %.0e)' % (case.get('limit', 60), dt, 0.5 * abs(dt) * ref.jac_bound(Cphi), min(h[900:1000]), min(h[1900:2000]),
                                                 min(h[2900:3000]), tol_impl))
@@ -1236,6 +1247,17 @@ def c13_case(case):
     sh = int(rng.integers(1, nz))
     pg.parallel_gradient(np.roll(phis[0], sh, axis=0).copy(), i, d3)
     ck.close('commutes with a z shift of %d cells (i=%d)' % (sh, i), d3, np.roll(keep[(i, 0)][0], sh, axis=0), keep[(i, 0)][1], rtol=1e-11)
+    # a second gradient object of another order on the same spline basis, calls interleaved
+    o1 = case['order'] if case.get('order') is not None else 6
+    o2 = 2 if o1 != 2 else 4
+    if nz > o2:
+        from pygyro.advection.advection import ParallelGradient
+        pg2 = ParallelGradient(pg._thetaSpline.basis, eta, layout, make_constants(dict(iotaVal=case['iota'], R0=case['R0'])), o2)
+        pg2.parallel_gradient(phis[1].copy(), i, d3)
+        c13_want(ck, 'second object of order %d on the same basis (i=%d)' % (o2, i), d3, phis[1], theta, sp, dz, dict(case, order=o2),
+                 r_loc[i], 1.0 + np.abs(phis[1]).max())
+        pg.parallel_gradient(phis[0].copy(), i, d3)
+        ck.close('first object unchanged after using the second one', d3, keep[(i, 0)][0], keep[(i, 0)][1], rtol=1e-13)
     return ck
 
 
